@@ -1018,13 +1018,18 @@ impl Sim {
         let fail = matches!(how, RespondHow::FailReason) && v5;
         let nonce = if p.type_code == 13 || p.type_code == 6 { None } else { self.next_nonce() };
         let opts = self.enc_opts(how);
+        // failing reason codes: every one the specification allows for the packet type, chosen by the packet id
+        let sel = p.pid as usize;
+        let pub_fail: [u8; 8] = [0x80, 0x83, 0x87, 0x80, 0x90, 0x91, 0x97, 0x99];
+        let sub_fail: [u8; 9] = [0x80, 0x83, 0x87, 0x8F, 0x91, 0x97, 0x9E, 0xA1, 0xA2];
+        let unsub_fail: [u8; 5] = [0x80, 0x83, 0x87, 0x8F, 0x91];
         let (pkt, reason, reasons): (rf::Packet, u8, Vec<u8>) = match p.type_code {
             4 => {
-                let r = if fail { 0x80 } else { 0 };
+                let r = if fail { pub_fail[(sel + 3) % pub_fail.len()] } else { 0 };
                 (rf::Packet::Puback(rf::Ack { pid: p.pid, reason: r, reason_string: nonce.clone(), user_props: vec![] }), r, vec![])
             }
             5 => {
-                let r = if fail { 0x80 } else { 0 };
+                let r = if fail { pub_fail[(sel + 2) % pub_fail.len()] } else { 0 };
                 (rf::Packet::Pubrec(rf::Ack { pid: p.pid, reason: r, reason_string: nonce.clone(), user_props: vec![] }), r, vec![])
             }
             6 => (rf::Packet::Pubrel(rf::Ack { pid: p.pid, reason: 0, reason_string: None, user_props: vec![] }), 0, vec![]),
@@ -1033,11 +1038,11 @@ impl Sim {
                 (rf::Packet::Pubcomp(rf::Ack { pid: p.pid, reason: r, reason_string: nonce.clone(), user_props: vec![] }), r, vec![])
             }
             9 => {
-                let rs: Vec<u8> = (0..p.n).map(|i| if fail || matches!(how, RespondHow::FailReason) { 0x80 } else { (i % 3) as u8 }).collect();
+                let rs: Vec<u8> = (0..p.n).map(|i| if fail { sub_fail[(sel + i as usize) % sub_fail.len()] } else if matches!(how, RespondHow::FailReason) { 0x80 } else { (i % 3) as u8 }).collect();
                 (rf::Packet::Suback(rf::Suback { pid: p.pid, reason_string: nonce.clone(), user_props: vec![], reasons: rs.clone() }), 0, rs)
             }
             11 => {
-                let rs: Vec<u8> = if v5 { (0..p.n).map(|i| if fail { 0x80 } else if i % 2 == 1 { 0x11 } else { 0 }).collect() } else { vec![] };
+                let rs: Vec<u8> = if v5 { (0..p.n).map(|i| if fail { unsub_fail[(sel + i as usize) % unsub_fail.len()] } else if i % 2 == 1 { 0x11 } else { 0 }).collect() } else { vec![] };
                 (rf::Packet::Unsuback(rf::Unsuback { pid: p.pid, reason_string: nonce.clone(), user_props: vec![], reasons: rs.clone() }), 0, rs)
             }
             _ => (rf::Packet::Pingresp, 0, vec![]),
